@@ -108,6 +108,7 @@ type Gen struct {
 	defers  []deferred
 	curPos  token.Pos
 	curBlk  *ssa.BasicBlock
+	siteHit map[*SiteAssert]bool
 	curIn   ssa.Instruction
 	loopOf  map[*ssa.BasicBlock]int // loop head -> ordinal
 	heads   []*ssa.BasicBlock
